@@ -475,6 +475,73 @@ def r8(ctx, rep):
     rep.borrowed(C17.r2, ctx, "C13.R8", "token and lexer-error spans are offsets into the caller's text", only=r"^same-string")
 
 
+def r9(ctx, rep):
+    rep.rule("C13.R9", "spans are ordered and stay inside the text they were measured in: parser spans take both ends from the same token list (start falls back to 0, end to start); "
+             "interpolation spans are `span_base.start + offset` at both ends", floor=4)
+    syn = ctx.syn
+    import alpha
+    pp = syn.fn("parser::parse_lr_to_pr", crate="prqlc_parser")
+    A = alpha.Inliner(pp)
+    sites = [n for n in walk(pp["body"]) if n.get("k") == "struct" and last_seg(n["p"]) == "Span"]
+    if not sites:
+        raise AnchorMissing("parse_lr_to_pr: the Span built by map_span")
+    for i, n in enumerate(sites, 1):
+        d = dict(n["f"])
+        def val(e):
+            # the local the field is given (one step: the token list itself stays a name)
+            if e is not None and e.get("k") == "path":
+                defs = [st for st in walk(pp["body"]) if st.get("k") == "local" and st["pat"].get("k") == "p_ident" and st["pat"]["n"] == e["p"] and st.get("init") is not None and st["l"] <= n["l"]]
+                if defs:
+                    e = max(defs, key=lambda st: st["l"])["init"]
+            return show(e, maxdepth=14).replace(" ", "") if e is not None else ""
+        st_, en_ = val(d.get("start")), val(d.get("end"))
+        lists = set(re.findall(r"(\w+)\.get\(", st_ + " " + en_))
+        fb_s = re.search(r"\.unwrap_or\((.*)\)$", st_)
+        fb_e = re.search(r"\.unwrap_or\((.*)\)$", en_)
+        ok = len(lists) == 1 and fb_s is not None and fb_s.group(1) == "0" and fb_e is not None and (fb_e.group(1) == st_ or fb_e.group(1) == "start")
+        ok = ok and ".span.start" in st_ and ".span.end" in en_
+        rep.check(ok, f"parser-span:{i}", f"map_span must take start and end from one token list, start falling back to 0 and end to start (found start `{st_[:70]}`, end `{en_[:70]}`): "
+                  "an end-of-input error whose start comes from elsewhere can lie after its end, and rendering it panics", file=pp["file"], line=n["l"], fn=pp["path"])
+    # interpolation: the base span is only read through `.start` / `.source_id` (never handed on whole, never `.end`), in parse and in helpers of the file it is given to
+    ip = syn.fn("interpolation::parse", crate="prqlc_parser")
+    import guards
+    seen, todo, n_use = set(), [(ip, "span_base")], 0
+    while todo:
+        g, name = todo.pop()
+        if (g["path"], name) in seen:
+            continue
+        seen.add((g["path"], name))
+        par = guards.parents(g["body"])
+        for x in walk(g["body"]):
+            if x.get("k") == "path" and x["p"] == name:
+                q = par.get(id(x))
+                while q is not None and q.get("k") in ("ref", "paren"):
+                    q = par.get(id(q))
+                n_use += 1
+                if q is not None and q.get("k") == "field" and q["f"] in ("start", "source_id"):
+                    continue
+                if q is not None and q.get("k") == "call" and q["f"].get("k") == "path":
+                    hs = [h for h in syn.fns if h["crate"] == g["crate"] and h["file"] == g["file"] and h["name"] == last_seg(q["f"]["p"]) and "body" in h]
+                    idx = [j for j, a_ in enumerate(q["a"]) if a_ is x or (a_.get("k") == "ref" and a_["e"] is x)]
+                    if len(hs) == 1 and idx and idx[0] < len(hs[0].get("params", [])) and isinstance(hs[0]["params"][idx[0]], dict) and hs[0]["params"][idx[0]].get("name"):
+                        todo.append((hs[0], hs[0]["params"][idx[0]]["name"]))
+                        continue
+                rep.bad(f"interpolation-base:{g['name']}", f"{g['name']} uses the base span `{name}` other than through `.start` / `.source_id` (`{show(q, maxdepth=5)[:60] if q else name}`): the base is "
+                        "the string token shifted behind its prefix, so its end (or the span as a whole) reaches past the closing quote - beyond the source when the string ends the file",
+                        file=g["file"], line=x["l"], fn=g["path"])
+    rep.check(n_use >= 4, "interpolation-base:uses", f"expected the rebasing uses of span_base in interpolation::parse, found {n_use}", file=ip["file"], line=ip["l"], fn=ip["path"])
+    # .. and every Span built there has both ends at `<base>.start + <offset>`
+    for g, name in [(g_, n_) for (gp, n_) in seen for g_ in syn.fns if g_["path"] == gp and g_["crate"] == "prqlc_parser" and "body" in g_]:
+        for n in walk(g["body"]):
+            if n.get("k") == "struct" and last_seg(n["p"]) == "Span":
+                d = dict(n["f"])
+                s1 = show(d.get("start")).replace(" ", "").strip("()") if d.get("start") is not None else ""
+                e1 = show(d.get("end")).replace(" ", "").strip("()") if d.get("end") is not None else ""
+                ok = s1.startswith(name + ".start+") and e1.startswith(name + ".start+") or (s1.endswith("+" + name + ".start") and e1.endswith("+" + name + ".start"))
+                rep.check(ok, f"interpolation-span:{g['name']}:{n['l'] - g['l']}", f"a span inside an interpolated string is `{name}.start + offset` at both ends; found start `{s1}`, end `{e1}`",
+                          file=g["file"], line=n["l"], fn=g["path"])
+
+
 def run(ctx, rep):
-    for r in (r1, r3, r4, r5, r6, r7, r8):
+    for r in (r1, r3, r4, r5, r6, r7, r8, r9):
         rep.guard(r, ctx)
